@@ -20,7 +20,11 @@ func main() {
 		Corpus:    corpus,
 		VM:        true,
 		Isolate:   true,
-		Extra:     func(w *lib.Writer, tier string, seed uint64) { boundaryCases(w, tier, seed); coLimits(w, tier, seed) },
+		Extra: func(w *lib.Writer, tier string, seed uint64) {
+			boundaryCases(w, tier, seed)
+			coLimits(w, tier, seed)
+			apiResume(w, tier, seed)
+		},
 	})
 }
 
